@@ -122,7 +122,9 @@ class SimExecutor(object):
                 bridge.clear_caches()  # a fresh worker starts with empty memo caches (in-process fallback)
                 for i in chain_list:
                     self._run_one(futs, i, sch)
-        self.stats["workers_forked" if use_fork else "workers_in_process"] = self.stats.get("workers_forked" if use_fork else "workers_in_process", 0) + len(groups)
+        self.stats["workers_simulated"] = self.stats.get("workers_simulated", 0) + len(groups)
+        if self.hist is not None:
+            self.hist["fork_isolation"] = bool(use_fork)
         fin = [i for i in sch.get("finish_order", range(k)) if i < k] or list(range(k))
         if fin != sorted(fin):
             self.stats["finished_out_of_order"] = self.stats.get("finished_out_of_order", 0) + 1
@@ -151,6 +153,7 @@ class SimExecutor(object):
             try:
                 os.close(rfd)
                 if hist is not None:
+                    hist["_clocks"] = []
                     hist["conc_calls"], hist["appended"], hist["post_burnin"] = [], [], []
                     hist["iter_calls"] = {"burnin": 0, "main": 0}
                     hist["main_iters_by_chain"] = {}
@@ -163,6 +166,8 @@ class SimExecutor(object):
                     e = futs[i]._exc
                     out.append((i, futs[i]._res, None if e is None else (type(e).__name__, str(e)[:300], innermost_phyclone_frame(e)), False))
                 delta = None if hist is None else {k: hist.get(k) for k in ("conc_calls", "appended", "post_burnin", "iter_calls", "main_iters_by_chain")}
+                if delta is not None:
+                    delta["clock_stats"] = [(c.reads, c.T) for c in hist.get("_clocks", [])]
                 payload = pickle.dumps((out, delta), protocol=pickle.HIGHEST_PROTOCOL)
                 with os.fdopen(wfd, "wb") as fh:
                     fh.write(payload)
@@ -202,6 +207,7 @@ class SimExecutor(object):
             for kk, v in delta["iter_calls"].items():
                 hist["iter_calls"][kk] = hist["iter_calls"].get(kk, 0) + v
             hist.setdefault("main_iters_by_chain", {}).update(delta["main_iters_by_chain"])
+            hist.setdefault("_clock_stats", []).extend(delta.get("clock_stats", []))
 
 
 class ChainError(Exception):
@@ -512,7 +518,7 @@ def run_pipeline(spec):
 
         def make_timer():
             c = SimClock(spec.get("deltas") or [0.0])
-            clock_holder.setdefault("clocks", []).append(c)
+            hist.setdefault("_clocks", []).append(c)
             return Timer(func=c)
 
         if spec.get("draw_budget"):
@@ -659,8 +665,9 @@ def run_pipeline(spec):
             hist["stats"]["writer_bypassed_simulated_disk"] = 1
         hist["fs_fired"] = dict(fs.fired)
         hist["out_file"] = out_file
-        hist["clock_reads"] = [c.reads for c in clock_holder.get("clocks", [])]
-        hist["sim_time"] = float(sum(max(0.0, c.T) for c in clock_holder.get("clocks", [])))
+        cstats = [(c.reads, c.T) for c in hist.pop("_clocks", [])] + list(hist.pop("_clock_stats", []))
+        hist["clock_reads"] = sorted(rd for rd, _ in cstats)
+        hist["sim_time"] = float(sum(max(0.0, t_) for _, t_ in cstats))
         if hist["image"] is not None and hist["exception"] is None:
             hist["results"] = hist.get("results_handed_to_writer")
             if hist["results"] is not None and cluster_file and all("clusters" not in v for v in hist["results"].values()):
